@@ -21,11 +21,13 @@ from . import sweep
 
 PROP = 'C10'
 
-KINDS = ['narrow', 'wide', 'placeholder', 'combining']
+KINDS = ['narrow', 'wide', 'placeholder', 'combining', 'vs16']
 
 
 def kind_text(kind, marker):
-    return {'narrow': marker, 'wide': 'コ', 'placeholder': '', 'combining': marker + '̈'}[kind]
+    # vs16: a one-column symbol followed by the zero-width variation selector 16 (an "emoji presentation"
+    # sequence whose *string* width differs from the width of its first character)
+    return {'narrow': marker, 'wide': 'コ', 'placeholder': '', 'combining': marker + '̈', 'vs16': '☺️'}[kind]
 
 
 def path_render(ctx, job, box):
@@ -42,7 +44,8 @@ def path_render(ctx, job, box):
     for (ky, py, row) in buf.e:
         cells = []
         for (kx, px, cell) in row.e:
-            sel = ctx.bvvar('kind_%d_%d' % (ky.v, kx.v), 2)
+            sel = ctx.bvvar('kind_%d_%d' % (ky.v, kx.v), 3)
+            ctx.assume(z3.ULT(sel, len(KINDS)))
             mk_ = run.ss.markers[(ky.v, kx.v)]
             data = SChoice(tuple((sel == i, Str.of(kind_text(k, mk_))) for i, k in enumerate(KINDS)))
             cells.append((kx, px, cell.with_field(L.char['data'], data)))
@@ -205,7 +208,7 @@ def jobs(tier):
 META = {
     'functions': ['display', 'display::{closure#0}', 'default_char', 'every operation of the sweep (twice per path)'],
     'bounds': 'render: grids up to 2x2/3x1 (thorough 3x2/4x1) with every cell absent or narrow/wide/placeholder/'
-              'base+combining; independence: geometries quick {2x1,2x2} thorough {1x1,2x1,1x2,2x2,3x2}, every operation '
+              'base+combining/symbol+VS16; independence: geometries quick {2x1,2x2} thorough {1x1,2x1,1x2,2x2,3x2}, every operation '
               'of the sweep, arbitrary symbolic materialisation mask over absent rows and cells',
     'outside': 'larger grids; cell texts other than the four kinds',
 }
